@@ -391,6 +391,7 @@ func checkC15(P *Prog, r *Result) {
 	// ---- list-scalar-absent ----
 	P.checkAbsentAtProvider(r, "C15/list-scalar-absent", func(fn *ssa.Function) bool { return funcPkgPath(fn) == pkgZhttp })
 	r.floor("C15/list-scalar-absent", 1)
+	P.checkListKeyAlwaysList(r, "C15/list-key-always-list")
 	// ---- empty-object: provider never a nil interface ----
 	P.checkProviderNonNil(r, "C15/empty-object")
 	P.checkSourceOpenWhileRead(r)
@@ -1275,5 +1276,121 @@ func (P *Prog) checkProviderFromCheckedValue(r *Result, rule string) {
 	}
 	if n == 0 {
 		r.broken("vacuous: no comma-ok assertion flows into a provider constructor")
+	}
+}
+
+// checkListKeyAlwaysList: "a parameter whose name ends in [] is always a list": in the Get of the url.Values provider
+// some return of the boxed []string is control-dependent on a test of the key's "[]" suffix (a comparison of a slice of
+// the key with "[]", strings.HasSuffix / CutSuffix with "[]", or a module helper that returns such a test). Folding the
+// special case into the general one ("one value is a scalar") turns `tags[]=` with a single blank value into an absent
+// field where the same record as JSON or as a Go map has a one-element list.
+func (P *Prog) checkListKeyAlwaysList(r *Result, rule string) {
+	var suffixTest func(v ssa.Value, d int) bool
+	suffixTest = func(v ssa.Value, d int) bool {
+		if d > 4 || v == nil {
+			return false
+		}
+		switch x := cv(v).(type) {
+		case *ssa.UnOp:
+			if x.Op == token.NOT {
+				return suffixTest(x.X, d+1)
+			}
+		case *ssa.BinOp:
+			if x.Op == token.EQL || x.Op == token.NEQ {
+				for _, side := range []ssa.Value{x.X, x.Y} {
+					if s, ok := constString(side); ok && s == "[]" {
+						return true
+					}
+				}
+			}
+		case *ssa.Extract:
+			if c, ok := x.Tuple.(*ssa.Call); ok {
+				return suffixTest(c, d+1)
+			}
+		case *ssa.Phi:
+			for _, e := range x.Edges {
+				if suffixTest(e, d+1) {
+					return true
+				}
+			}
+		case *ssa.Call:
+			ci := callOf(x)
+			if ci.static == nil {
+				return false
+			}
+			switch ci.static.String() {
+			case "strings.HasSuffix", "strings.CutSuffix":
+				if len(x.Call.Args) == 2 {
+					if s, ok := constString(x.Call.Args[1]); ok && s == "[]" {
+						return true
+					}
+				}
+				return false
+			}
+			if ci.static.Blocks != nil && inModule(funcPkgPath(ci.static)) {
+				found := false
+				eachInstr(ci.static, func(_ *ssa.BasicBlock, _ int, in ssa.Instruction) {
+					if rt, ok := in.(*ssa.Return); ok {
+						for _, rv := range rt.Results {
+							if suffixTest(rv, d+1) {
+								found = true
+							}
+						}
+					}
+					// (`len(k) > 2 && strings.HasSuffix(k, "[]")` returned through a phi of the two tests)
+					if iff, ok := in.(*ssa.If); ok && suffixTest(iff.Cond, d+1) {
+						found = true
+					}
+				})
+				return found
+			}
+		}
+		return false
+	}
+	n := 0
+	for _, fn := range P.Funcs {
+		if fn.Name() != "Get" || fn.Parent() != nil || fn.Signature.Recv() == nil || funcPkgPath(fn) != pkgZhttp || !P.isProviderType(fn.Signature.Recv().Type()) {
+			continue
+		}
+		n++
+		r.sawFunc(fname(fn))
+		ok := false
+		for _, u := range P.allUnits(fn) {
+			u := u
+			u.with(func() {
+				eachInstr(u.fn, func(b *ssa.BasicBlock, _ int, in ssa.Instruction) {
+					rt, isRt := in.(*ssa.Return)
+					if !isRt || len(rt.Results) == 0 {
+						return
+					}
+					// a boxed list of strings ([]string, or url.Values' element type)
+					v := rt.Results[0]
+					mi, isMI := v.(*ssa.MakeInterface)
+					if !isMI {
+						return
+					}
+					sl, isSl := mi.X.Type().Underlying().(*types.Slice)
+					if !isSl {
+						return
+					}
+					if bt, isB := sl.Elem().Underlying().(*types.Basic); !isB || bt.Info()&types.IsString == 0 {
+						return
+					}
+					for _, gd := range guardsOf(b) {
+						if suffixTest(gd.If.Cond, 0) {
+							ok = true
+						}
+					}
+				})
+			})
+		}
+		if ok {
+			r.ok(rule, fname(fn), P.pos(fn.Pos()), "the list is returned as a list under the test of the key's \"[]\" suffix")
+		} else {
+			r.bad(rule, fname(fn), P.pos(fn.Pos()), "no return of the list of values depends on the key ending in \"[]\": a `name[]` parameter with one value is handed over as a scalar, and a blank one reads as absent where the same record as JSON or a Go map is a one-element list")
+		}
+	}
+	if n == 0 {
+		r.undecided(rule, "urlDataProvider.Get", "-", "the Get method of the url.Values provider was not found")
 	}
 }
